@@ -247,10 +247,19 @@ func (m *InterpModel) Call(mc *Machine, st *State, call ssa.CallInstruction, cal
 		}
 		return outs, true
 	}
-	// ---- dynamic dispatch
+	// ---- dynamic dispatch — and the same methods of the function values called on a value whose type the code has
+	// just tested (`case *Function: fn.Call(i, arguments)`): a call of a callable is one event however it is dispatched
+	methodName := ""
 	if common.IsInvoke() {
+		methodName = common.Method.Name()
+	} else if callee != nil && callee.Signature.Recv() != nil && len(st.Frames) >= 1 && callee != st.Frames[0].Fn && (callee.Name() == "Call" || callee.Name() == "Arity") {
+		if ci := m.p.callableIface(); ci != nil && types.Implements(callee.Signature.Recv().Type(), ci) {
+			methodName = callee.Name()
+		}
+	}
+	if methodName != "" {
 		recv := args[0]
-		switch common.Method.Name() {
+		switch methodName {
 		case "Call":
 			var outs []Outcome
 			was := m.raised(st)
@@ -298,9 +307,9 @@ func (m *InterpModel) Call(mc *Machine, st *State, call ssa.CallInstruction, cal
 			e := m.ev(in, "arity", argStrings(args), "")
 			return []Outcome{{Result: Sym("arity(" + recv.String() + ")"), Apply: func(s *State) { m.Emit(s, e) }}}, true
 		case "String", "Error":
-			return []Outcome{{Result: Sym(common.Method.Name() + "(" + recv.String() + ")")}}, true
+			return []Outcome{{Result: Sym(methodName + "(" + recv.String() + ")")}}, true
 		}
-		m.Undecided = append(m.Undecided, "unmodelled dynamic call "+common.Method.Name()+" at "+m.p.InstrPos(in))
+		m.Undecided = append(m.Undecided, "unmodelled dynamic call "+methodName+" at "+m.p.InstrPos(in))
 		return nil, false
 	}
 	if callee == nil {
@@ -416,6 +425,14 @@ func (m *InterpModel) Call(mc *Machine, st *State, call ssa.CallInstruction, cal
 		case strings.HasPrefix(full, "fmt.Print"):
 			e := m.ev(in, "print", m.variadic(mc, st, args), "")
 			e.KV["fn"] = full
+			if m.raised(st) {
+				e.KV["dirty"] = "T"
+			}
+			return []Outcome{{Result: Unk, Apply: func(s *State) { m.Emit(s, e) }}}, true
+		case strings.HasPrefix(full, "fmt.Fprint") && len(args) > 0 && args[0].String() == "global:os.Stdout":
+			// fmt.Fprintln(os.Stdout, …) is fmt.Println(…) under another spelling
+			e := m.ev(in, "print", m.variadic(mc, st, args[1:]), "")
+			e.KV["fn"] = "fmt.P" + strings.TrimPrefix(full, "fmt.Fp")
 			if m.raised(st) {
 				e.KV["dirty"] = "T"
 			}
